@@ -113,10 +113,12 @@ def rule_D0(ctx, prog, label, rule='D0'):
 class PhaseEval(object):
     """Constant folding of an expression under the hypothesis  ALIGNMENT(mzd_row(D, 0), 16) == phase."""
 
-    def __init__(self, fs, dest_names):
+    def __init__(self, fs, dest_names, binding=None, outer=None):
         self.fs = fs
         self.dest = set(dest_names)
         self.depends = False
+        self.binding = binding or {}     # helper parameter decl id -> caller argument expression
+        self.outer = outer               # PhaseEval of the caller (evaluates bound expressions)
 
     def ev(self, e, phase, depth=0):
         e = strip(e, casts=True)
@@ -134,6 +136,11 @@ class PhaseEval(object):
         if v is not None:
             return v
         if e.kind == 'DeclRefExpr':
+            if e.refid in self.binding and self.outer is not None:
+                v_ = self.outer.ev(self.binding[e.refid], phase, depth + 1)
+                if self.outer.depends:
+                    self.depends = True
+                return v_
             d = self.fs.single_def(e.refid)
             if d is not None:
                 return self.ev(d, phase, depth + 1)
@@ -249,6 +256,24 @@ class Align(object):
             return []
         seen.add(vid)
         res = []
+        # filled by a helper through an out-parameter:  helper(T, Talign, L, ...)
+        for c in f.body.find('CallExpr'):
+            g = self.prog.resolve(callee_name(c), f) if callee_name(c) else None
+            if g is None or g.body is None or callee_name(c) in SINKS:
+                continue
+            S = self.eff.of(g)
+            for j, a in enumerate(c.kids[1:]):
+                a2 = strip(a, casts=True)
+                if a2.kind == 'DeclRefExpr' and a2.refid == vid and j in S.pstores and j < len(g.params):
+                    gfs = FuncSym(g)
+                    binding = {}
+                    for jj, aa in enumerate(c.kids[1:]):
+                        if jj < len(g.params):
+                            binding[g.params[jj].id] = aa
+                    for dd in self.defs_of(gfs, g.params[j].id):
+                        ds_ = strip(dd, casts=True)
+                        if ds_.kind == 'CallExpr':
+                            res.append(('helper', ds_, gfs, binding, g))
         for d in self.defs_of(fs, vid):
             ds = strip(d, casts=True)
             if ds.kind == 'CallExpr':
@@ -307,14 +332,17 @@ def rule_D1(ctx, prog, label, rule='D1', only_funcs=None):
             creators = []
             for vid in A.table_vars(f, fs, targ):
                 creators += A.matrix_sources(f, fs, vid)
-            calls = [c for c in creators if not isinstance(c, tuple)]
-            params = sorted(set(c[1] for c in creators if isinstance(c, tuple)))
+            calls = [c for c in creators if not isinstance(c, tuple)] + [c for c in creators if isinstance(c, tuple) and c[0] == 'helper']
+            params = sorted(set(c[1] for c in creators if isinstance(c, tuple) and c[0] == 'param'))
             verdicts = []
             for c in calls:
+                hfs, hbind = fs, None
+                if isinstance(c, tuple):
+                    _tag, c, hfs, hbind, _g = c
                 name = callee_name(c)
                 if name in ('mzd_init_window', 'mzd_init_window_const'):
                     lowc = c.kids[3]
-                    pe = PhaseEval(fs, dest_params)
+                    pe = PhaseEval(hfs, dest_params, binding=hbind, outer=PhaseEval(fs, dest_params)) if hbind is not None else PhaseEval(fs, dest_params)
                     v0, v8 = pe.ev(lowc, 0), pe.ev(lowc, 8)
                     if v0 == 0 and v8 == 64:
                         verdicts.append((True, 'window at column offset `%s` = 64 * phase(dest)/8' % pp(lowc)))
